@@ -7,6 +7,8 @@ CONSTANTS
   UnOps = {"wrap1", "erswrap", "panic"}
   NOps = {"multi", "join", "sres", "stack", "coll", "panics"}
   SimSteps = 0
+  NilLike = {}
+  Holey = {}
 INVARIANT Sane
 CONSTRAINT Emit
 CHECK_DEADLOCK FALSE
